@@ -33,8 +33,9 @@ type SMMsg struct {
 }
 
 type SMCase struct {
-	StateID uint32  `json:"state_id,omitempty"` // Settings.OriginStateID of the local state machine
-	Msgs    []SMMsg `json:"msgs"`               // the first one is the CER
+	StateID  uint32  `json:"state_id,omitempty"` // Settings.OriginStateID of the local state machine
+	Firmware uint32  `json:"firmware,omitempty"` // Settings.FirmwareRevision (an optional AVP of the answers)
+	Msgs     []SMMsg `json:"msgs"`               // the first one is the CER
 }
 
 func (m SMMsg) image() []byte {
@@ -99,7 +100,7 @@ func (k keptSM) check(when string) *ev.Failure {
 
 func runSM(c SMCase) *ev.Failure {
 	machine := sm.New(&sm.Settings{OriginHost: "srv.example", OriginRealm: "example", VendorID: 13, ProductName: "verif",
-		OriginStateID: datatype.Unsigned32(c.StateID), HostIPAddresses: []datatype.Address{datatype.Address([]byte{10, 0, 0, 1})}})
+		OriginStateID: datatype.Unsigned32(c.StateID), FirmwareRevision: datatype.Unsigned32(c.Firmware), HostIPAddresses: []datatype.Address{datatype.Address([]byte{10, 0, 0, 1})}})
 	machine.HandleFunc("ACR", func(cc diam.Conn, m *diam.Message) { m.Answer(2001).WriteTo(cc) })
 	stop := make(chan struct{})
 	defer close(stop)
@@ -177,12 +178,15 @@ func runSM(c SMCase) *ev.Failure {
 
 var smKeepProp = ev.Register(&ev.Prop[SMCase]{
 	ID: "C06", Name: "kept-in-front-of-state-machine",
-	Rule: "a handler that keeps every request stands in front of a server state machine (sm.New, Origin-State-Id configured or not) on an in-memory connection: a CER (accepted - applications at top level or inside a Vendor-Specific-Application-Id whose Vendor-Id is not the first member -, or refused for no common application / missing Origin-Host / inband security; with or without the peer's Origin-State-Id), then after an accepted one 0..5 DWRs (with and without Origin-State-Id) and accounting requests answered by an application handler, with generated identifiers and P / T bits. " +
+	Rule: "a handler that keeps every request stands in front of a server state machine (sm.New, Origin-State-Id and Firmware-Revision configured or not) on an in-memory connection: a CER (accepted - applications at top level or inside a Vendor-Specific-Application-Id whose Vendor-Id is not the first member -, or refused for no common application / missing Origin-Host / inband security; with or without the peer's Origin-State-Id), then after an accepted one 0..5 DWRs (with and without Origin-State-Id) and accounting requests answered by an application handler, with generated identifiers and P / T bits. " +
 		"Demanded: right after the state machine handled a request, and again after the connection ended, the kept request has the header and AVP count it was delivered with and serialises to the image the peer sent. non-trivial = the state machine wrote an answer built from a kept request",
 	Gen: func(t *rapid.T) SMCase {
 		var c SMCase
 		if rapid.Bool().Draw(t, "origin-state-id") {
 			c.StateID = rapid.Uint32Range(1, 1<<31).Draw(t, "state")
+		}
+		if rapid.Bool().Draw(t, "firmware-revision") {
+			c.Firmware = rapid.Uint32Range(1, 1<<20).Draw(t, "firmware")
 		}
 		ids := func(l string) (uint32, uint32, uint8) {
 			return rapid.SampledFrom([]uint32{0, 1, 0x80000000, 0xffffffff, 0x1234}).Draw(t, l+"-hbh"), rapid.Uint32().Draw(t, l+"-e2e"),
@@ -214,6 +218,9 @@ var smKeepProp = ev.Register(&ev.Prop[SMCase]{
 		}
 		if c.StateID != 0 {
 			cl["origin-state-id-configured"] = true
+		}
+		if c.Firmware != 0 {
+			cl["firmware-revision-configured"] = true
 		}
 		var ks []string
 		for k := range cl {
